@@ -109,7 +109,11 @@ func c15MultiRecords(r *Run, pool []gts.Sequence) {
 			}
 		}
 		// a stream of two records through the one-input commands
-		for _, cs := range [][]string{{"delete", "1..2"}, {"rotate", "2"}, {"split", "2"}, {"extract", "1..3"}, {"extract", "-v", "1..3"}} {
+		// explicit locators with a NON-idempotent modifier among them (seeded change C15-i: the region
+		// of an explicit locator computed once and resized in place for every further record)
+		for _, cs := range [][]string{{"delete", "1..2"}, {"rotate", "2"}, {"split", "2"}, {"extract", "1..3"}, {"extract", "-v", "1..3"},
+			{"delete", "1..3@^+1..$-1"}, {"extract", "1..3@^+1..$-1"}, {"extract", "complement(1..3)@^+1"}, {"split", "1..3@^+1"}, {"rotate", "2@^+1"},
+			{"insert", "1..3@^+1", "@acgt"}} {
 			if gts.Len(h1) < 3 || gts.Len(h2) < 3 {
 				continue
 			}
